@@ -380,26 +380,6 @@ class Fn(Stmts):
             return f'.error .{x.id}'
         bad(s, f'raise {ast.unparse(x) if x else ""}')
 
-    def assign_all(self, s, env, go):
-        """a = b = <pure value>"""
-        B = []
-        t, ty = self.expr(s.value, env, B)
-        if B or not all(isinstance(x, ast.Name) for x in s.targets): bad(s, 'chained assignment')
-        env2 = dict(env)
-        tree = None
-        names = [x.id for x in s.targets]
-        for n in names: env2[n] = ty
-        tree = go(env2)
-        for n in reversed(names):
-            tree = ('let', lname(n), t, tree)
-        return tree
-
-    def block(self, stmts, env, k, live):
-        if stmts and isinstance(stmts[0], ast.Assign) and len(stmts[0].targets) > 1:
-            rest = stmts[1:]
-            return self.assign_all(stmts[0], env, lambda env2: self.block(rest, env2, k, live))
-        return super().block(stmts, env, k, live)
-
     def other_stmt(self, s, rest, env, k, live):
         if isinstance(s, ast.FunctionDef):
             ok = not s.decorator_list and [a.arg for a in s.args.args] == ['item'] and len(s.body) == 1 and \
